@@ -335,12 +335,61 @@ func short(b []byte) string {
 	return string(b)
 }
 
+// check decides one case: the oracle assertions on the case itself (checkOne) plus, where the
+// default layout is due, a metamorphic relation that needs no pinning of the limit's off-by-one:
+// the statement introduces the default only as "applied when the page names no layout and that
+// file exists" - it gives the implicit first link no other meaning than an explicit
+// `layout: base` would have (no longer limit, no other data, no other nesting). Hence the twin
+// case, identical except that the page's front-matter names `base`, must have the same outcome
+// (error vs success) and, on success, the same parsed document. The relation is not applied when
+// a file next to the page shadows layouts/base.vuego for the explicit name, and not when a
+// layout names the page file itself (the page then has a layout key in the twin, which makes the
+// twin a genuine cycle while the original chain ends in the key-less page).
 func check(c Case) error {
 	if c.Page.Path == "" {
 		return fmt.Errorf("bad case: no page")
 	}
+	pl, res, err := checkOne(c)
+	if err != nil {
+		return err
+	}
+	if !pl.defaultDue || pl.pageReused || pl.out == oUnspec {
+		return nil
+	}
+	shadow := path.Join(path.Dir(c.Page.Path), "base.vuego")
+	for _, f := range expand(c) {
+		if f.Path == shadow && shadow != basePath {
+			return nil
+		}
+	}
+	twin := c
+	twin.Page.Layout = "base"
+	_, res2, err := checkOne(twin)
+	if err != nil {
+		return fmt.Errorf("twin case with an explicit `layout: base` on the page: %w", err)
+	}
+	if (res.err == nil) != (res2.err == nil) {
+		return fmt.Errorf("the default layout changes the outcome of the chain (%s, %d layouts): page without layout key -> err=%v, %d bytes; same files with `layout: base` on the page -> err=%v, %d bytes",
+			pl.describe(), len(pl.chain)-1, res.err, len(res.out), res2.err, len(res2.out))
+	}
+	if res.err == nil {
+		a, _ := hx.Frag(string(res.out), hx.Collapse)
+		b, _ := hx.Frag(string(res2.out), hx.Collapse)
+		if d := hx.Diff(a, b, hx.Options{}); d != "" {
+			return fmt.Errorf("the document differs between default-applied and explicitly named layouts/base.vuego (%s): %s", pl.describe(), d)
+		}
+	}
+	return nil
+}
+
+// checkOne runs one render and applies the oracle to it.
+func checkOne(c Case) (plan, result, error) {
 	pl := walk(c)
 	res := execute(c)
+	return pl, res, judge(c, pl, res)
+}
+
+func judge(c Case, pl plan, res result) error {
 	layouts := len(pl.chain) - 1
 
 	// termination within the budgets, for every graph
@@ -872,7 +921,7 @@ func (s *stage) yield(c Case) bool {
 // closing into a cycle, or running into a missing file; the page naming the head or reaching
 // it through the default layout.
 func longChains(s *stage) {
-	for _, n := range []int{6, 20, 40, 80, 90, 99, 100, 101, 102, 150} {
+	for _, n := range []int{6, 20, 40, 80, 90, 99, 100, 101, 102, 110, 150} {
 		for _, dir := range []string{"layouts", "pages"} {
 			for _, tail := range []string{"", "c001", "zz"} {
 				for _, viaBase := range []bool{false, true} {
@@ -894,6 +943,30 @@ func longChains(s *stage) {
 					if !s.yield(c) {
 						return
 					}
+				}
+			}
+		}
+	}
+}
+
+// limitZone: for every chain length around the maximum (93..106 templates), the chain hanging
+// below layouts/base.vuego reached through the default rule; check() compares each with its
+// explicitly named twin. Chains in layouts/ and next to the page, both entry points.
+func limitZone(s *stage) {
+	for n := 91; n <= 104; n++ {
+		for _, dir := range []string{"layouts", "pages"} {
+			for _, via := range []string{"", "renderfile"} {
+				head := "c001"
+				if dir == "pages" {
+					head = "../pages/c001.vuego"
+				}
+				c := Case{Page: File{Path: "pages/p.vuego", K: kValue("pages/p.vuego")}, Files: []File{{Path: basePath, Layout: head}},
+					Long: &Long{N: n, Dir: dir}, Via: via}
+				if n%2 == 0 {
+					c.FillK = kFill
+				}
+				if !s.yield(c) {
+					return
 				}
 			}
 		}
@@ -1004,6 +1077,7 @@ func TestProp(t *testing.T) {
 		emit       func(*stage)
 	}{
 		{"long", "synthetic chains of 6..150 layouts", longChains},
+		{"zone", "default-applied vs explicitly named base over chains of 93..106 templates", limitZone},
 		{"shape", "chain shapes: lengths 0..5 x placements x endings x default/named", shapes},
 		{"enum", fmt.Sprintf("all layout graphs over %d layout files x 6 page options", len(slots)), func(s *stage) { allGraphs(s, slots) }},
 		{"enumk", "all layout graphs over 3 files x 3 page options x all k-source subsets x 2 entry points", allGraphsK},
